@@ -111,6 +111,16 @@ def _run_unit_job(args):
     return (unit_name, canary_name, run_unit(unit, {can.qual: mutated}, canary_expect=list(can.expect)))
 
 
+def native_match(vid, patterns):
+    for p in patterns:
+        if p.startswith('re:'):
+            if re.fullmatch(p[3:], vid or '', re.S):
+                return True
+        elif p == vid:
+            return True
+    return False
+
+
 def load_known_findings():
     p = os.path.join(VERIF, 'known_findings.json')
     if not os.path.exists(p):
@@ -262,7 +272,7 @@ def check_property(prop, modname, tier='quick', native=None, workers=None, extra
             if v.get('id') in seen_ids:
                 continue
             seen_ids.add(v.get('id'))
-            kf = [f for f in open_f if v.get('id') in f.get('native_ids', [])]
+            kf = [f for f in open_f if native_match(v.get('id'), f.get('native_ids', []))]
             if kf:
                 known_hit.append((kf[0], v.get('id')))
                 continue
